@@ -56,6 +56,8 @@ func init() {
 		MinRuns:    8,
 		Exec:       runC11,
 		PanicClass: kit.PanicInRepo("chain-panic"),
+		// reach probes every batch is expected to hit (listed in the evidence as probes_never_hit otherwise)
+		ExpectedProbes: []string{"crash after block data before state commit", "crash after head marker before tx lookups", "crash after the last write of an offer", "crash after tx lookups before head marker", "crash before deleting lookups of dropped transactions", "crash between canonical hash and head-block marker", "crash between head-header marker and canonical hash", "crash between receipts and head marker", "crash between state commit and head marker", "crash during reorg", "crash inside state commit", "crash while storing a side chain without state", "further block became head", "future block imported by ticker", "future block queued", "invalid block rejected", "offer fully enumerated", "offer sampled", "restart repaired head (loadLastState rewound)", "side chain became canonical", "side chain stored without becoming canonical"},
 	})
 }
 
